@@ -52,7 +52,7 @@ def rand_text(rng):
         if r < 0.12:
             out.append(rng.choice(["'", '\n', '%', '"', ' ', '\t', '\r', "''", "'\n"]))
         elif r < 0.2:
-            out.append(rng.choice(['import os', '__import__', ')', '(', ',', '.', ':-', '[]', '{}', '#', 'x = 1', 'None']))
+            out.append(rng.choice(['import os', '__import__', ')', '(', ',', '.', ':-', '[]', '{}', '#', 'x = 1', 'None', '/*', '*/', '/* c */', '//', '<!--']))
         elif r < 0.27:
             # text that Unicode normalisation (NFC/NFKC), BOM stripping or newline translation would change
             out.append(rng.choice(['e\u0301', 'A\u030a', '\u212b', '\u2126', '\uf900', '\u0344', 'q\u0307\u0323', '\ufeff', '\u200d',
@@ -389,8 +389,36 @@ def shared_engine_threads_case(ctx, rng, idx):
     return {'c': c, 'nt': True, 'key': ('threads', idx)}
 
 
+def many_atoms_case(ctx, rng, idx):
+    """an engine that has seen a very large number of distinct atom names (a term per file name of a big data set):
+    the atoms handed out earlier - to the host and to compiled code - are still THE objects for their names"""
+    real = ctx['real']
+    E = real.E
+    yp = real.engine(real.compile("kept('plain text', build, [x1]).\n"))
+    early = {n: yp.atom(n) for n in ('plain text', 'build', 'x1', 'never in the program')}
+    X, Y, Z = yp.variable(), yp.variable(), yp.variable()
+    from_code = None
+    for _ in yp.query('kept', [X, Y, Z]):
+        from_code = (X.get_value(), Y.get_value())
+    n = rng.choice([20000, 70000, 101000, 130000])
+    mk = yp.atom
+    for i in range(n):
+        mk('file_%d_%d' % (idx, i))
+    c = {'engines_with_many_atoms': 1, 'atoms_created_in_one_engine': n}
+    w = {'literal': '%d distinct atoms created in one engine' % n}
+    for name, a in early.items():
+        if yp.atom(name) is not a:
+            return {'c': c, 'nt': True, 'key': None, 'v': {'kind': 'atom_not_interned', 'detail': {'name': name, 'after_creating_atoms': n}, 'witness': w}}
+    for _ in yp.query('kept', [X, Y, Z]):
+        if X.get_value() is not from_code[0] or Y.get_value() is not from_code[1] or X.get_value() is not early['plain text']:
+            return {'c': c, 'nt': True, 'key': None, 'v': {'kind': 'atom_not_interned', 'detail': {'where': 'literal of compiled code', 'after_creating_atoms': n}, 'witness': w}}
+    return {'c': c, 'nt': True, 'key': ('many_atoms', idx)}
+
+
 def run_case(ctx, seed, idx, tier):
     rng = random.Random((seed * 1000003 + idx) * 7 + 16)
+    if idx % 1000 == 501:
+        return many_atoms_case(ctx, rng, idx)
     if idx % 400 == 77:
         return shared_engine_threads_case(ctx, rng, idx)
     c = {}
